@@ -946,6 +946,10 @@ func (c *suComp) Gen(r *rand.Rand, tier string) []string {
 			if id := s.ids[r.Intn(len(s.ids))]; !s.gate[id] {
 				s.emit("eof %s", encStr(id))
 			}
+		case x >= 97 && len(s.ids) > 0 && genProfile == "c08" && r.Intn(2) == 0:
+			// a quiet period longer than the send timeout: only a subscriber with a send in
+			// progress may be timed out (not one whose last item was withheld by the ACL, or idle)
+			s.emit("expire %s", encStr(s.ids[r.Intn(len(s.ids))]))
 		case x < 39 && len(s.ids) > 0 && genProfile == "c08":
 			id := s.ids[r.Intn(len(s.ids))]
 			if s.gate[id] {
